@@ -255,6 +255,7 @@ def run(ctx, for_simplifier=False):
     c01.r013(ctx, t0, t1)
     c01.r014(ctx)
     c01.r015(ctx)
+    c01.r016(ctx)
 
 
 def fmt(key):
